@@ -1433,3 +1433,36 @@ for _pid in ("C03", "C04"):
     SPECS[_pid]["level_text"] = SPECS[_pid]["level_text"].replace(
         "for every history of one iovec over push /", "for every history of one iovec (Props/C03W: of every handle of every multi-object WOp history) over push /").replace(
         "for every history of one iovec (same vocabulary as C03):", "for every history of one iovec (same vocabulary as C03; Props/C04W: every handle of every multi-object WOp history):")
+# ---- track apileft (helper abt): AtomicBaseTime::{sequence, new, default} (track item 1) ----
+SPECS["C13"]["lean_modules"] += ["Woodpile.Props.C13Q"]
+SPECS["C13"]["theorems"] += [
+    "Woodpile.Props.C13Q.sequence_no_lock_no_store",
+    "Woodpile.Props.C13Q.sc_sequence_one_step",
+    "Woodpile.Props.C13Q.ra_sequence_one_step",
+    "Woodpile.Props.C13Q.ra_sequence_enabled",
+    "Woodpile.Props.C13Q.sc_sequence_at_load",
+    "Woodpile.Props.C13Q.sc_start_records_count",
+    "Woodpile.Props.C13Q.sc_sequence_counts",
+    "Woodpile.Props.C13Q.ra_sequence_at_load",
+    "Woodpile.Props.C13Q.ra_sequence_counts",
+    "Woodpile.Props.C13Q.ra_sequence_monotone",
+    "Woodpile.Props.C13Q.sc_sequence_monotone",
+    "Woodpile.Props.C13Q.ra_sequence_after_sync",
+    "Woodpile.Props.C13Q.new_is_init",
+]
+SPECS["C13"]["level_text"] += (' Track apileft (Props/C13Q): the model has a fourth program, AtomicBaseTime::sequence() (qSeq -> retSeq: ONE relaxed load of the '
+    'counter, Op.sequence / Res.seqv), so every theorem above that quantifies over reachable states / schedules / completed calls (Mach.RecOK) also covers '
+    'executions in which threads call sequence(). sequence() performs exactly one access, no lock operation, no store, and ends in one own step that is enabled '
+    'from any state (sequence_no_lock_no_store, sc_/ra_sequence_one_step, ra_sequence_enabled); SC: it returns exactly hist.length - 1 = the number of accepted '
+    'updates published when its load executed, between the counts at its start and return (sc_sequence_at_load, sc_sequence_counts); release/acquire: it returns '
+    'the timestamp n of a sequence message it was allowed to read: vStart <= n = vRet < hist.length, hist[n] the n-th accepted update, and the relaxed load '
+    'advances only the view of sequence (ra_sequence_at_load, ra_sequence_counts); per thread successive results never decrease and a sequence() after the '
+    'thread\'s own snapshot / accepted update is at least the sequence number that call observed / published (ra_sequence_monotone; SC: any threads in real-time '
+    'order, sc_sequence_monotone; across threads after a sync, ra_sequence_after_sync). new() = Default::default() = SC.init / RA.init: counter 0, epoch pair in both '
+    'slots, hist = [epoch pair], mutex free and clean, solo snapshot = epoch pair, solo sequence = 0 (new_is_init); the harness builds every second object through '
+    'Default::default(), op new_default compares both constructors (words, mutex, sequence(), snapshot()) with init, and trace / execution / explore ops drive '
+    'the real sequence() through H3 (ordering included).')
+SPECS["C18"]["level_text"] += (' Track apileft: the model\'s fourth program, AtomicBaseTime::sequence() (one relaxed load of the counter), is covered by the '
+    'machine-level statements above (…_only_update_lock_blocks quantify over every program counter); its own no-lock / no-store / one-own-step theorems are pinned '
+    'under C13 (Props/C13Q: sequence_no_lock_no_store, sc_/ra_sequence_one_step, ra_sequence_enabled), and the abt family\'s oracle reports a lock operation or a '
+    'store by the real sequence() as a C18 violation.')
